@@ -229,18 +229,19 @@ def differential(ctx, n_cases):
             if err:
                 why.append(f"{name} path raised {err}")
                 continue
-            if sorted(kills) != sorted(spec):
-                missed = sorted(set(spec) - set(kills))
-                why.append(f"{name} path: processes of the tree that existed when the sweep looked are not killed: {missed}" if missed else
-                           f"{name} path: kills {kills} are not one per process of the visible tree {sorted(spec)}")
-            else:
-                o = children_first(kills, vis)
-                if o:
-                    why.append(f"{name} path: {o[1]} is killed before its descendant {o[0]}")
-            if joined != 1:
-                why.append(f"{name} path: the worker is joined {joined} times")
-        if ef or rf != [t[0]] or jf != 1:
-            why.append(f"psutil-less path with a failing pgrep: kills {rf}, joined {jf}, error {ef} (expected: the worker alone, joined once)")
+            # what the property demands: every process the sweep can see is killed, nothing outside the tree is, the worker is reaped.
+            # The ORDER of the kills and their multiplicity are the model's (a difference there breaks the correspondence, it is not a
+            # failing input by itself)
+            missed = sorted(set(spec) - set(kills))
+            strangers = sorted(set(kills) - set(all_pids(t)))
+            if missed:
+                why.append(f"{name} path: processes of the tree that existed when the sweep looked are not killed: {missed}")
+            if strangers:
+                why.append(f"{name} path: processes outside the worker's tree are killed: {strangers}")
+            if joined < 1:
+                why.append(f"{name} path: the worker is not joined (reaped)")
+        if ef or t[0] not in rf or set(rf) - set(all_pids(t)) or jf < 1:
+            why.append(f"psutil-less path with a failing pgrep: kills {rf}, joined {jf}, error {ef} (expected: at least the worker itself killed, and joined)")
         if why:
             bad.append({"tree": coq_tree(t), "why": why, "psutil_less_kills": rp, "psutil_kills": ru, "specification": spec})
         cases.append((t, rp, ru, spec))
@@ -303,17 +304,15 @@ def dynamic_differential(ctx, n_cases):
             why = []
             if err:
                 why.append(f"{path} path raised {err}")
-            elif sorted(kills) != sorted(spec):
+            else:
                 missed = sorted(set(spec) - set(kills))
-                why.append(f"{path} path: processes that existed when their parent's children were listed are not killed: {missed}" if missed else
-                           f"{path} path: kills {kills} are not one per visible process {sorted(spec)}")
-            elif children_first(kills, vis):
-                o = children_first(kills, vis)
-                why.append(f"{path} path: {o[1]} is killed before its descendant {o[0]}")
-            elif surv != want_surv:
-                why.append(f"{path} path: survivors {surv}, the model says {want_surv}")
-            if joined != 1 and not err:
-                why.append(f"{path} path: the worker is joined {joined} times")
+                strangers = sorted(set(kills) - set(all_pids(ht)))
+                if missed:
+                    why.append(f"{path} path: processes that existed when their parent's children were listed are not killed: {missed}")
+                if strangers:
+                    why.append(f"{path} path: processes outside the worker's tree are killed: {strangers}")
+                if joined < 1:
+                    why.append(f"{path} path: the worker is not joined (reaped)")
             if why:
                 bad.append({"tree": coq_tree(ht), "fork_schedule": sched, "why": why, "kills": kills, "specification": spec})
             cases.append((ht, path, kills))
